@@ -199,7 +199,8 @@ def check_history(case):
                     m["trains"] += 1
                     if m["trains"] > 1:
                         seen_retrain = True
-                    m["trained"] = True
+                    # whether a training makes the model usable is train()'s own decision (e.g. a score threshold)
+                    m["trained"] = bool(sur.trained)
             got_tr = len(stub.fits) if stub is not None else len(trains)
             if got_tr != m["trains"]:
                 raise Violation("predicting", "retrain-schedule", "step %d: %d trainings after %d true evaluations with "
